@@ -18,6 +18,8 @@ from common import CONFIG_INI, Quiet, coq_bad, listlit, pmap
 
 CONTENT = [f"a,b\n{c},x{c}\n".encode() for c in range(3)]
 DIG = {hashlib.sha256(b).hexdigest(): i for i, b in enumerate(CONTENT)}
+SRC = ["s0.csv", "s1.2024-03.csv"]          # the second source file has more than one dot in its name
+EXT = [".csv", ".2024-03.csv"]              # what the store keeps of the source name: everything after its first dot
 ALPHA = [("add", n, s) for n in (0, 1) for s in (0, 1)] + [("mut", s, c) for s in (0, 1) for c in (0, 1, 2)] + [("rem", n) for n in (0, 1)] + [("new",)]
 
 
@@ -42,15 +44,17 @@ def observe(paths):
             for e in man:
                 fh = os.path.basename(e["file_home"])
                 out += [int(fh[1]), DIG[e["fingerprint"]]]
-                if os.path.basename(e["file"]) != e["fingerprint"] + ".csv" or os.path.dirname(e["file"]) != e["file_home"]:
-                    raise ValueError("manifest entry's file is not <file_home>/<fingerprint>.csv: %r" % e)
+                if os.path.basename(e["file"]) != e["fingerprint"] + EXT[int(fh[1])] or os.path.dirname(e["file"]) != e["file_home"]:
+                    raise ValueError("manifest entry's file is not <file_home>/<fingerprint><extension of the source>: %r" % e)
             g = fm.get_named_file(f"n{n}") if man else None
             if g is None:
                 out += [-1, -1]
             else:
                 d, b = os.path.split(g)
-                out += [int(os.path.basename(d)[1]), DIG[b[:-4]]]
-                if fm.get_fingerprint_for_name(f"n{n}") != b[:-4]:
+                if not os.path.isfile(g) or b.split(".", 1)[1] != EXT[int(os.path.basename(d)[1])][1:]:
+                    raise ValueError("get_named_file names %r, which is not a stored file with the source's extension" % g)
+                out += [int(os.path.basename(d)[1]), DIG[b.split(".", 1)[0]]]
+                if fm.get_fingerprint_for_name(f"n{n}") != b.split(".", 1)[0]:
                     raise ValueError("get_fingerprint_for_name disagrees with get_named_file")
             stored = {}
             for sdir in os.listdir(home):
@@ -59,11 +63,11 @@ def observe(paths):
                     for f in os.listdir(sp):
                         with open(os.path.join(sp, f), "rb") as fh:
                             data = fh.read()
-                        if not f.endswith(".csv") or f[:-4] not in DIG:
+                        if "." + f.split(".", 1)[1] != EXT[int(sdir[1])] or f.split(".", 1)[0] not in DIG:
                             raise ValueError("unexpected file in the store: %s/%s" % (sdir, f))
                         # the bytes must be one of the contents; -2 marks "name is not the digest of the bytes"
                         cid = CONTENT.index(data) if data in CONTENT else -3
-                        stored[(int(sdir[1]), DIG[f[:-4]])] = cid if (cid >= 0 and hashlib.sha256(data).hexdigest() == f[:-4]) else -2
+                        stored[(int(sdir[1]), DIG[f.split(".", 1)[0]])] = cid if (cid >= 0 and hashlib.sha256(data).hexdigest() == f.split(".", 1)[0]) else -2
         for s in (0, 1):
             for d in (0, 1, 2):
                 out.append(stored.get((s, d), -1))
@@ -83,16 +87,16 @@ def run_history(job):
         with open("config.ini", "w") as fh:
             fh.write(CONFIG_INI)
         for s in (0, 1):
-            with open(f"src/s{s}.csv", "wb") as fh:
+            with open("src/" + SRC[s], "wb") as fh:
                 fh.write(CONTENT[s])
         with Quiet():
             paths = CsvPaths()
             for i, o in enumerate(ops):
                 try:
                     if o[0] == "add":
-                        paths.file_manager.add_named_file(name=f"n{o[1]}", path=f"src/s{o[2]}.csv")
+                        paths.file_manager.add_named_file(name=f"n{o[1]}", path="src/" + SRC[o[2]])
                     elif o[0] == "mut":
-                        with open(f"src/s{o[1]}.csv", "wb") as fh:
+                        with open("src/" + SRC[o[1]], "wb") as fh:
                             fh.write(CONTENT[o[2]])
                     elif o[0] == "rem":
                         paths.file_manager.remove_named_file(f"n{o[1]}")
@@ -111,9 +115,56 @@ def run_history(job):
     return res
 
 
+def digest_named(_job):
+    """a source file that is itself named by the digest of its bytes (e.g. a path obtained from get_named_file, registered under
+    another name): the store must end up holding those bytes under that name (repaired defect D27)"""
+    from csvpath import CsvPaths
+    home = os.getcwd()
+    d = os.path.join(home, "dn")
+    shutil.rmtree(d, ignore_errors=True)
+    os.makedirs(os.path.join(d, "src"))
+    os.chdir(d)
+    out = {"exc": None, "problems": []}
+    try:
+        with open("config.ini", "w") as fh:
+            fh.write(CONFIG_INI)
+        with open("src/s0.csv", "wb") as fh:
+            fh.write(CONTENT[0])
+        dig = hashlib.sha256(CONTENT[2]).hexdigest()
+        with open(f"src/{dig}.csv", "wb") as fh:
+            fh.write(CONTENT[2])
+        with Quiet():
+            paths = CsvPaths()
+            fm = paths.file_manager
+
+            def current(name, want):
+                g = fm.get_named_file(name)
+                if not g or not os.path.isfile(g):
+                    out["problems"].append(f"get_named_file({name}) names {g}, which does not exist")
+                elif open(g, "rb").read() != want or os.path.basename(g).split(".")[0] != hashlib.sha256(want).hexdigest():
+                    out["problems"].append(f"get_named_file({name}) = {g}: wrong bytes or not named by their digest")
+            fm.add_named_file(name="a", path=f"src/{dig}.csv")
+            current("a", CONTENT[2])
+            fm.add_named_file(name="a", path=f"src/{dig}.csv")       # repeat
+            current("a", CONTENT[2])
+            fm.add_named_file(name="b", path="src/s0.csv")
+            stored = fm.get_named_file("b")
+            fm.add_named_file(name="c", path=stored)                 # a stored file registered under another name
+            current("c", CONTENT[0])
+            current("b", CONTENT[0])
+            CsvPaths().file_manager.get_named_file("c")
+    except Exception as ex:  # noqa
+        out["exc"] = type(ex).__name__ + ": " + str(ex)[:160]
+    finally:
+        os.chdir(home)
+        shutil.rmtree(d, ignore_errors=True)
+    return out
+
+
 def run(ctx):
     rng = ctx.rng
     quick = ctx.tier == "quick"
+    dn = pmap(ctx, digest_named, [0], chunksize=1)[0]
     hs = []
     for n in range(1, (3 if quick else 4) + 1):
         hs += [list(t) for t in itertools.product(ALPHA, repeat=n)]
@@ -136,6 +187,9 @@ def run(ctx):
                 "impl": {"exception": res[i]["exc"], "observations_after_each_op": res[i]["obs"]},
                 "observation_format": "per name n0,n1: exists?, #manifest entries, (source,fingerprint-as-content-id)*, get_named_file (source, content id), then bytes stored at "
                                       "(source 0..1 x digest-of-content 0..2) as content id (-1 absent, -2 name is not the digest of its bytes, -3 unknown bytes)"}
+    if dn["exc"] or dn["problems"]:
+        ctx.violation("digest-named-source", {"what": "registering a source file that is named by the digest of its own bytes does not leave those bytes in the store under that name "
+                                                      "(defect D27, listed fixed, is back)", "case": dn})
     if spec_bad:
         # shortest failing history first
         i = min(spec_bad, key=lambda k: len(hs[k]))
@@ -146,7 +200,7 @@ def run(ctx):
         ctx.violation("correspondence", {"what": "correspondence Mgr/FileStore.v vs FileManager/FileRegistrar no longer checks (Harness/C11Cmp.c11_agree); theorems C11_* are about the model only",
                                          "disagreeing_case": case(i)}, no_input=True)
     ctx.coverage.update({
-        "evaluations": len(hs), "distinct_nontrivial": len({repr(h) for h, r in zip(hs, res) if not r["exc"] and any(o[0] == "add" for o in h) and len(h) >= 2}),
+        "digest_named_source_scenario": dn, "evaluations": len(hs), "distinct_nontrivial": len({repr(h) for h, r in zip(hs, res) if not r["exc"] and any(o[0] == "add" for o in h) and len(h) >= 2}),
         "rule": f"every operation sequence of length 1..{exhaustive_upto} over the 13-letter alphabet add(2 names x 2 source files), mutate(2 sources x 3 contents), remove(2 names), new instance "
                 f"(exhaustive), plus random sequences of length 4-10 biased towards adds; real FileManager in a scratch tree, full abstraction of the store after every operation. "
                 "Non-trivial = distinct history of length >= 2 containing an add.",
